@@ -76,8 +76,10 @@ impl DiameterClient {
         let stream = TcpStream::connect(self.address.clone()).await?;
         // Every connection has its own waiter table and its own closed flag: the reader of an
         // earlier connection releases (and closes) only what was sent on that connection.
-        self.msg_caches = Arc::new(Mutex::new(HashMap::new()));
-        self.closed = Arc::new(AtomicBool::new(false));
+        // They replace the previous connection's together with the writer, once the connection
+        // is fully set up: a TLS handshake that fails leaves the client on its previous one.
+        let msg_caches = Arc::new(Mutex::new(HashMap::new()));
+        let closed = Arc::new(AtomicBool::new(false));
 
         if self.config.use_tls {
             let tls_connector = tokio_native_tls::TlsConnector::from(
@@ -93,13 +95,14 @@ impl DiameterClient {
             // writer
             let writer = Arc::new(Mutex::new(writer));
             self.writer = Some(writer);
+            self.msg_caches = Arc::clone(&msg_caches);
+            self.closed = Arc::clone(&closed);
 
             // reader
-            let msg_caches = Arc::clone(&self.msg_caches);
             Ok(ClientHandler {
                 reader: Box::new(reader),
                 msg_caches,
-                closed: Arc::clone(&self.closed),
+                closed,
             })
         } else {
             let (reader, writer) = tokio::io::split(stream);
@@ -107,13 +110,14 @@ impl DiameterClient {
             // writer
             let writer = Arc::new(Mutex::new(writer));
             self.writer = Some(writer);
+            self.msg_caches = Arc::clone(&msg_caches);
+            self.closed = Arc::clone(&closed);
 
             // reader
-            let msg_caches = Arc::clone(&self.msg_caches);
             Ok(ClientHandler {
                 reader: Box::new(reader),
                 msg_caches,
-                closed: Arc::clone(&self.closed),
+                closed,
             })
         }
     }
